@@ -26,6 +26,7 @@ Proof.
   destruct o; simpl in H; try discriminate; simpl.
   - destruct (remove_coll g n); eauto.
   - destruct (lookup run (colls g)) as [[| |]|]; eauto.
+    destruct (negb (memN run (runs g))); eauto.
     destruct (has_key g run det); eauto.
   - destruct (lookup tag (colls g)) as [[| |]|]; eauto.
     match goal with |- context[if ?b then _ else _] => destruct b end; eauto.
@@ -117,7 +118,7 @@ Proof. auto. Qed.
 Lemma chain_edit_not_closed_without_fix_p :
   exists g s', colls g <> [] /\ mstep false [] g [] (SetChain 1 [2]) s0 = (g, Cont s').
 Proof.
-  exists (mkG [(1, CChained); (2, CChained)] [] [] [] [] [] [] [] [] 1%N), (at_ph 1 s0).
+  exists (mkG [(1, CChained); (2, CChained)] [] [] [] [] [] [] [] [] 1%N []), (at_ph 1 s0).
   split; [discriminate | reflexivity].
 Qed.
 
